@@ -917,9 +917,9 @@ fn parse_punctuated_nested_meta(
 
                 let attr_name = path.get_ident().unwrap().to_string();
                 match (wrapper_name, attr_name.as_str()) {
-                    (None, "owned") => info.owned = Some(true),
-                    (None, "ref") => info.ref_ = Some(true),
-                    (None, "ref_mut") => info.ref_mut = Some(true),
+                    (None, "owned") => set_once(&mut info.owned, true, path)?,
+                    (None, "ref") => set_once(&mut info.ref_, true, path)?,
+                    (None, "ref_mut") => set_once(&mut info.ref_mut, true, path)?,
 
                     #[cfg(any(feature = "from", feature = "into"))]
                     (None, "types")
@@ -1014,16 +1014,26 @@ fn parse_punctuated_nested_meta(
 
                 let attr_name = path.get_ident().unwrap().to_string();
                 match (wrapper_name, attr_name.as_str()) {
-                    (None, "ignore") => info.enabled = Some(false),
-                    (None, "forward") => info.forward = Some(true),
-                    (Some("not"), "forward") => info.forward = Some(false),
-                    (None, "owned") => info.owned = Some(true),
-                    (None, "ref") => info.ref_ = Some(true),
-                    (None, "ref_mut") => info.ref_mut = Some(true),
-                    (None, "source") => info.source = Some(true),
-                    (Some("not"), "source") => info.source = Some(false),
-                    (None, "backtrace") => info.backtrace = Some(true),
-                    (Some("not"), "backtrace") => info.backtrace = Some(false),
+                    (None, "ignore") => {
+                        // `enabled` is pre-set to `Some(true)` by the attribute's presence.
+                        if info.enabled == Some(false) {
+                            return Err(duplicate_param_error(path));
+                        }
+                        info.enabled = Some(false)
+                    }
+                    (None, "forward") => set_once(&mut info.forward, true, path)?,
+                    (Some("not"), "forward") => {
+                        set_once(&mut info.forward, false, path)?
+                    }
+                    (None, "owned") => set_once(&mut info.owned, true, path)?,
+                    (None, "ref") => set_once(&mut info.ref_, true, path)?,
+                    (None, "ref_mut") => set_once(&mut info.ref_mut, true, path)?,
+                    (None, "source") => set_once(&mut info.source, true, path)?,
+                    (Some("not"), "source") => set_once(&mut info.source, false, path)?,
+                    (None, "backtrace") => set_once(&mut info.backtrace, true, path)?,
+                    (Some("not"), "backtrace") => {
+                        set_once(&mut info.backtrace, false, path)?
+                    }
                     _ => {
                         return Err(Error::new(
                             path.span(),
@@ -1039,6 +1049,31 @@ fn parse_punctuated_nested_meta(
     }
 
     Ok(())
+}
+
+/// Sets the provided `slot` of a [`MetaInfo`] to the `value`, erroring if it has been set already
+/// (the parameter is duplicated, or contradicts another one, like `source, not(source)`).
+fn set_once(
+    slot: &mut Option<bool>,
+    value: bool,
+    path: &polyfill::PathOrKeyword,
+) -> Result<()> {
+    if slot.replace(value).is_some() {
+        return Err(duplicate_param_error(path));
+    }
+    Ok(())
+}
+
+/// Constructs an [`Error`] about a duplicated or contradicting attribute parameter.
+fn duplicate_param_error(path: &polyfill::PathOrKeyword) -> Error {
+    Error::new(
+        path.span(),
+        format!(
+            "Attribute parameter `{}` is specified more than once, or contradicts another \
+             parameter of this attribute",
+            quote! { #path },
+        ),
+    )
 }
 
 // TODO: Remove this eventually, once all macros migrate to
